@@ -1079,7 +1079,7 @@ std::vector<uint8_t> MDSDRV_Converter::convert_track(const std::vector<MDSDRV_Ev
 				// we must add the length parameter of that event before adding any
 				// rest duration, to prevent ambiguity
 				if((last_type >= MDSDRV_Event::TIE) && (last_type < MDSDRV_Event::SLR)
-						&& (track_data.at(track_data.size() - 1) > 0x80))
+						&& track_data.size() && (track_data.back() > 0x80))
 				{
 					last_type = MDSDRV_Event::REST;
 					track_data.push_back(last_note);
@@ -1095,7 +1095,7 @@ std::vector<uint8_t> MDSDRV_Converter::convert_track(const std::vector<MDSDRV_Ev
 			else
 			{
 				if((last_type >= MDSDRV_Event::TIE) && (last_type < MDSDRV_Event::SLR)
-						&& (track_data.at(track_data.size() - 1) > 0x80))
+						&& track_data.size() && (track_data.back() > 0x80))
 				{
 					last_type = MDSDRV_Event::REST;
 					track_data.push_back(last_note);
